@@ -33,7 +33,13 @@ AtomCodesDef ==
          [] s = "*" -> <<42>> [] s = "f*" -> <<102, 42>> [] s = "x*" -> <<120, 42>>
          [] s = "fg*" -> <<102, 103, 42>> [] s = "c" -> <<99>> [] s = "d" -> <<100>>
          [] s = "x" -> <<120>>]
-FmtPiecesDef == [s \in {} |-> <<>>]
+(* the format strings of the print slice, as the pieces between their %s markers  *)
+(* (the harness checks this table against the real strings)                        *)
+FmtPiecesDef ==
+    [s \in {"%s", "<%s>", "x%s", "%s-%s", "a%sb%sc", "%s%s", "%sx%s%s", "%s.\n"} |->
+       CASE s = "%s" -> <<"", "">> [] s = "<%s>" -> <<"<", ">">> [] s = "x%s" -> <<"x", "">>
+         [] s = "%s-%s" -> <<"", "-", "">> [] s = "a%sb%sc" -> <<"a", "b", "c">> [] s = "%s%s" -> <<"", "", "">>
+         [] s = "%sx%s%s" -> <<"", "x", "", "">> [] s = "%s.\n" -> <<"", ".\n">>]
 
 P(x, y, z) == <<x, y, z, NoT>>
 NoPrior == P(NoT, NoT, NoT)
@@ -107,7 +113,29 @@ FunCalls ==
   \cup {[f |-> "functor", args |-> <<t, pt, ar>>, prior |-> p] :
            t \in FunTerms, pt \in FunPats, ar \in {O, IntT(1), IntT(2), a}, p \in FunPriors}
 
+(* ------------------------------ print / print_list / nl (C04) ----------- *)
+(* print substitutes its later arguments for the %s markers of the first one    *)
+(* (k markers, k arguments), or concatenates when there is no marker, showing    *)
+(* each argument's bound value                                                   *)
+PrArgs   == {a, b, IntT(7), IntT(-1), X, Z, Atom("hello world")}
+PrArgsQ  == {a, IntT(7), X, Z}
+PrPriors == {P(a, NoT, X), P(IntT(3), NoT, b)}
+Fm(s) == Atom(s)
+PrCalls ==
+    LET A == IF Thorough THEN PrArgs ELSE PrArgsQ IN
+       {[f |-> "print", args |-> <<Fm(fs), x>>, prior |-> p] : fs \in {"%s", "<%s>", "x%s", "%s.\n"}, x \in PrArgs, p \in PrPriors}
+  \cup {[f |-> "print", args |-> <<Fm(fs), x, y>>, prior |-> p] : fs \in {"%s-%s", "a%sb%sc", "%s%s"}, x \in A, y \in PrArgs, p \in PrPriors}
+  \cup {[f |-> "print", args |-> <<Fm("%sx%s%s"), x, y, z>>, prior |-> P(a, NoT, X)] : x \in A, y \in A, z \in PrArgsQ}
+  \cup {[f |-> "print", args |-> <<x>>, prior |-> p] : x \in PrArgs, p \in PrPriors}
+  \cup {[f |-> "print", args |-> <<x, y>>, prior |-> p] : x \in PrArgs, y \in PrArgs, p \in PrPriors}
+  \cup {[f |-> "print", args |-> <<x, y, z>>, prior |-> P(a, NoT, X)] : x \in A, y \in A, z \in A}
+  \cup {[f |-> "print_list", args |-> <<l>>, prior |-> p] :
+           l \in {EmptyList, Lst(<<a>>), Lst(<<a, b, IntT(7)>>), Lst(<<X, b>>), Lst(<<Z, X, Z>>), LstT(<<a>>, Y), X, Lst(<<Atom("hello world"), IntT(-1)>>)},
+           p \in PrPriors \cup {P(Lst(<<a, b>>), Lst(<<b, Atom("c")>>), NoT), P(b, EmptyList, X)}}
+  \cup {[f |-> "nl", args |-> <<>>, prior |-> NoPrior]}
+
 Calls == CASE Slice = "cmp"     -> CmpCalls
+           [] Slice = "print"   -> PrCalls
            [] Slice = "append"  -> AppCalls
            [] Slice = "count"   -> CntCalls
            [] Slice = "filter"  -> FltCalls
@@ -166,6 +194,7 @@ Case == [ t      |-> "bip",
           prior  |-> PackSeq(c.prior),
           status |-> c.r.st,
           out    |-> c.r.out,
+          fmt    |-> [s \in DOMAIN FmtPiecesDef |-> FmtPiecesDef[s]],
           res    |-> PackSeq(Canon(ResolveSeq(VarVec(1, NVars) \o c.args, c.r.b))),
           path   |-> <<c.f, c.r.st>> ]
 Emit == Done => PrintT(<<"CASE", ToJson(Case)>>)
